@@ -131,7 +131,7 @@ theorem lentz_inv (x a b : ℚ) (hg0 : guardInit x a b) :
 
 /-! ### the loop of `betacf` walks through `lstate` and stops on the code's test -/
 
-theorem cfNum_even (x a b : ℚ) (m : ℕ) (hm : 1 ≤ m) : cfNum x a b (2 * m) = numEven x a b m := by
+theorem cfNum_even (x a b : ℚ) (m : ℕ) (_hm : 1 ≤ m) : cfNum x a b (2 * m) = numEven x a b m := by
   unfold cfNum
   have h1 : ¬ (2 * m = 1) := by omega
   have h2 : (2 * m) % 2 = 0 := by omega
